@@ -106,12 +106,25 @@ def accessorOp (j : Json) : Except String Res := do
   | "markup" =>
     pure { model := resJson (fun _ => Json.bool true) (Obj.getMarkupKind kvs key key2), nontrivial := present }
   | _ => throw "bad accessor" : Except String Res)
+  -- a media type handed out is `token "/" token` (HTTP token characters) and the start of the string
+  let tokenStr (t : String) : Bool := !t.isEmpty && t.toList.all Mime.isTok
+  let mediaOk : Bool := match acc, impl.getObjVal? "ok" with
+    | "mediatype", .ok (Json.arr a) =>
+      (match a[0]?, a[1]?, a[2]? with
+       | some (Json.str e), some (Json.str sup), some (Json.str sub) =>
+         tokenStr sup && tokenStr sub && e == sup ++ "/" ++ sub &&
+           (match Obj.lookup kvs key with
+            | some (.str raw) => e.toList.isPrefixOf (Ansi.scrub raw)
+            | _ => false)
+       | _, _, _ => false)
+    | _, _ => true
   -- the answer does not depend on which accessors were called on the document before
   let aloneOk : Bool := match j.getObjVal? "alone" with
     | .ok a => a == impl
     | .error _ => true
   pure { r with preds := r.preds ++ [("empty_string_is_absent", absentOk), ("string_sanitised_nonempty", stringOk),
-                                      ("answer_independent_of_earlier_accessors", aloneOk)] }
+                                      ("answer_independent_of_earlier_accessors", aloneOk),
+                                      ("media_type_is_token_slash_token", mediaOk)] }
 
 end Ops
 
